@@ -348,12 +348,10 @@ __CPROVER_assigns(g.set_inlines, g.set_inline_on)
 __CPROVER_ensures(g.set_inlines == 1 && g.set_inline_on == inner);
 void StoreCallback(Core* inner, Core* callback) __CPROVER_requires(inner != 0) __CPROVER_assigns(g.store_callbacks) __CPROVER_ensures(g.store_callbacks == OLD(g.store_callbacks) + 1);
 Core* MoveToCaller(Core* head) __CPROVER_requires(head != 0) __CPROVER_assigns() __CPROVER_ensures(RET == g_task_head && RET != 0);
-/* the Task the functor returned may be of any kind; only MakeTask and coroutine heads may be started through Here(caller) - for
-   Schedule() / LazyContract() heads Here means "the Result of my caller / my awaited inner state is there" */
-unsigned char g_head_accepts_here;
+/* the Task the functor returned may be of any kind: every head type starts when reached through Here(caller) / Next(caller) with caller == its continuation
+   (ReadyCore::Here, PromiseCore::Here in unit handles, Core<Run>::Impl below, PromiseType::Here in unit coro) */
 Transfer Step(Core* caller, Core* callback)
 __CPROVER_requires(callback != 0 && g.store_callbacks == 1)     /* the head may only be started after it knows its continuation */
-__CPROVER_requires(g_head_accepts_here)                         /* C02/C12: pre Here(head): the head accepts being started through Here */
 __CPROVER_assigns(g.steps, g.step_to) __CPROVER_ensures(g.steps == OLD(g.steps) + 1 && g.step_to == callback);
 /* detail::Start(core): MoveToCaller + one Submit of the head on its executor (proved in unit handles) - valid for every kind of head */
 void Start(Core* core)
@@ -569,25 +567,26 @@ def entry_jobs(ctx, props):
         contract = """Transfer Impl(Core* self, Core* caller)
 __CPROVER_requires(__CPROVER_is_fresh(self, sizeof(*self)) && __CPROVER_is_fresh(caller, sizeof(*caller)))
 __CPROVER_requires(g_ci_calls == 0 && g.dones == 0 && g.submits == 0 && g_transfers == 0 && g.caller_increfs == 0 && !g.union_is_result && self->_self.unwrapping <= 1)
-__CPROVER_requires(CFG_RUN ? (CFG_ASYNC != 0 && self->_self.caller == caller) : 1)
+__CPROVER_requires(CFG_RUN ? ((self->_self.caller == 0 && self->_executor != 0) || (CFG_ASYNC != 0 && self->_self.caller == caller)) : 1)
 __CPROVER_requires((!CFG_RUN && CFG_ASYNC && self->_self.unwrapping) ? self->_self.caller == caller : 1)
 __CPROVER_requires((!CFG_RUN && !(CFG_ASYNC && self->_self.unwrapping)) ? self->_self.caller == 0 : 1)
 __CPROVER_assigns(g_ci_calls, g_ci_arg, g.dones, g_done_async, g_done_val, g.submits, g.submit_to, g_transfers, g_tr_from, g_tr_to, g_tr_shared, self->_executor, g.caller_increfs, self->_self.caller)
+/* C12 / C02 / C13: a first step (Schedule / Run core) that has not run yet and is reached through Here / Next is the head of a lazy chain whose caller is its continuation (the step that returned
+   this Task or the coroutine awaiting it): it is STARTED - exactly one Submit of itself on its own executor, as detail::Start does - and nothing is read from the caller */
+__CPROVER_ensures(HEAD_START ==> (g.submits == 1 && g.submit_to == OLD(self->_executor) && g.dones == 0 && g_ci_calls == 0 && g_transfers == 0 && g.caller_increfs == 0 && self->_self.caller == 0 && RET == (Transfer)0))
 /* second visit (the awaited inner Future / Task completed): lemma unwrap - the step completes with exactly the inner Result */
 __CPROVER_ensures(WAS_UNWRAP ==> (g.dones == 1 && g_done_async == 1 && g_done_val.kind == K_RESULT && g_done_val.state == caller->_result.state && g_done_val.tag == caller->_result.tag
     && g.submits == 0 && g_ci_calls == 0 && g_transfers == 0))
 /* first visit: remember the predecessor, inherit its executor unless one was given (C05) */
-__CPROVER_ensures(!WAS_UNWRAP ==> (self->_self.caller == caller && g_transfers == 1 && g_tr_from == caller && g_tr_to == self && g_tr_shared == CFG_FROM_SHARED && g.dones == 0))
+__CPROVER_ensures(FIRST_VISIT ==> (self->_self.caller == caller && g_transfers == 1 && g_tr_from == caller && g_tr_to == self && g_tr_shared == CFG_FROM_SHARED && g.dones == 0))
 /* C06: a callback that can outlive every SharedFuture takes its own reference on the shared state */
-__CPROVER_ensures(!WAS_UNWRAP ==> g.caller_increfs == ((CFG_FROM_SHARED && (CFG_CALL || CFG_ASYNC)) ? 1 : 0))
+__CPROVER_ensures(FIRST_VISIT ==> g.caller_increfs == ((CFG_FROM_SHARED && (CFG_CALL || CFG_ASYNC)) ? 1 : 0))
 /* C05: Then(e, f): exactly one Submit on this step's executor and nothing runs here; ThenInline: zero Submits, the step runs now on the predecessor's Result */
-__CPROVER_ensures((!WAS_UNWRAP && CFG_CALL) ==> (g.submits == 1 && g.submit_to == g_exec_after_transfer && g_ci_calls == 0 && RET == (Transfer)0))
-__CPROVER_ensures((!WAS_UNWRAP && !CFG_CALL) ==> (g.submits == 0 && g_ci_calls == 1 && g_ci_arg.kind == K_RESULT && g_ci_arg.state == caller->_result.state && g_ci_arg.tag == caller->_result.tag && RET == g_ci_ret))
-""".replace('WAS_UNWRAP', '(CFG_RUN || (CFG_ASYNC && OLD(self->_self.unwrapping) != 0))')
+__CPROVER_ensures((FIRST_VISIT && CFG_CALL) ==> (g.submits == 1 && g.submit_to == g_exec_after_transfer && g_ci_calls == 0 && RET == (Transfer)0))
+__CPROVER_ensures((FIRST_VISIT && !CFG_CALL) ==> (g.submits == 0 && g_ci_calls == 1 && g_ci_arg.kind == K_RESULT && g_ci_arg.state == caller->_result.state && g_ci_arg.tag == caller->_result.tag && RET == g_ci_ret))
+""".replace('WAS_UNWRAP', '((CFG_RUN && OLD(self->_self.caller) != 0) || (!CFG_RUN && CFG_ASYNC && OLD(self->_self.unwrapping) != 0))').replace('HEAD_START', '(CFG_RUN && OLD(self->_self.caller) == 0)').replace('FIRST_VISIT', '(!CFG_RUN && !(CFG_ASYNC && OLD(self->_self.unwrapping) != 0))')
         harness = 'void harness(void) { ghost_reset(); g_ci_calls = 0; g_transfers = 0; Core* self; Core* caller; Impl(self, caller); if (g.dones) VF_CANARY("unwrapped"); else if (g.submits) VF_CANARY("submitted"); else VF_CANARY("ran inline"); }\n'
-        ncan = 1 if k['CFG_RUN'] else (1 + (1 if k['CFG_ASYNC'] else 0))
-        if k['CFG_RUN'] and not k['CFG_ASYNC']:
-            continue      # a first step that returns no Future / Task is never reached through Here
+        ncan = 1 + (1 if k['CFG_ASYNC'] else 0)
         out.append(Job('core/Impl.' + nm, props, head + contract + '{ VF_ALIAS(self->_self.caller, caller); ' + c_impl + '}\n' + harness, 'harness', enforce='Impl',
                        replace=['CallImpl', 'Done', 'MoveOrConst', 'TransferExecutorTo', 'IncRef', 'Submit'], funcs=[B['Core::Impl']], canaries=ncan,
                        expect=[r'postcondition'], meta={'fn': 'Core::Impl', 'cfg': cfg}))
